@@ -225,6 +225,14 @@ func ociCheckImage(img coci.SignedImage, rc *ociRawConfig, layers []v1.Layer, cr
 			bad("diff-id %d %s is not the hash of the uncompressed layer sha256:%s", i, rc.RootFS.DiffIDs[i], sha(plain))
 		}
 	}
+	for i, h := range rc.History {
+		var he struct {
+			Created string `json:"created"`
+		}
+		if err := json.Unmarshal(h, &he); err != nil || he.Created != created {
+			bad("history %d created %q, want %q", i, he.Created, created)
+		}
+	}
 	if rc.RootFS.Type != "layers" {
 		bad("rootfs type %q", rc.RootFS.Type)
 	}
